@@ -98,9 +98,19 @@ type caseM struct {
 	Pretouch    bool            `json:"pretouch"`
 	// replay-file extras (ignored by the worker)
 	Expect   *expectM `json:"expect,omitempty"`
+	History  *histM   `json:"process_history,omitempty"`
 	Tree     string   `json:"tree,omitempty"`
 	Toolchain string  `json:"toolchain,omitempty"`
 }
+// histM: a failure that needs the worker process's earlier runs to reproduce
+// (the race detector's report depends on what the process did before).
+type histM struct {
+	Base uint64 `json:"base"`
+	From uint64 `json:"from"`
+	To   uint64 `json:"to"`
+	Note string `json:"note"`
+}
+
 type expectM struct {
 	Verdict   string `json:"verdict"`
 	Detail    string `json:"detail,omitempty"`
@@ -175,6 +185,7 @@ type lineM struct {
 
 // failure is one non-ok run as the orchestrator sees it.
 type failure struct {
+	ProcFrom uint64 // first run index of the worker process in which it failed
 	I       uint64
 	Seed    uint64
 	Profile string
@@ -466,6 +477,7 @@ func (x *c17) sweep(a *agg, deadline time.Time, workers int, chunk uint64, maxRu
 						return
 					}
 					if f != nil {
+						f.ProcFrom = from
 						a.mu.Lock()
 						a.failures = append(a.failures, f)
 						nf := len(a.failures)
@@ -927,9 +939,21 @@ func mainC17(e *env) {
 		}
 		exp := c.Expect
 		c.Expect = nil
+		hist := c.History
+		c.History = nil
 		_, f, res, tr := x.runCase(c, 1)
 		if tr != "" {
 			trouble(e, "%s", tr)
+		}
+		if f == nil && hist != nil {
+			po := x.spawn(1, 240*time.Second, "-base", fmt.Sprint(hist.Base), "-from", fmt.Sprint(hist.From), "-to", fmt.Sprint(hist.To), "-profile", "mixed")
+			hf, htr := failureOf(po)
+			if htr != "" {
+				trouble(e, "%s", htr)
+			}
+			if hf != nil && hf.I == hist.To-1 {
+				f = hf
+			}
 		}
 		if f == nil {
 			fmt.Printf("REPLAY property=C17 file=%s: no violation on this tree (verdict ok)\n", e.replay)
@@ -1021,7 +1045,27 @@ func mainC17(e *env) {
 			trouble(e, "confirming run %d: %s", f.I, tr)
 		}
 		if cf == nil || cf.Verdict != f.Verdict {
-			trouble(e, "run %d (seed %d) failed with %s in the sweep but not when re-executed in a fresh process: nondeterministic", f.I, f.Seed, f.Verdict)
+			// Re-execute the worker process it failed in (same first run index):
+			// a race report can depend on what the process did before the run.
+			po := x.spawn(1, 240*time.Second, "-base", fmt.Sprint(x.e.seed), "-from", fmt.Sprint(f.ProcFrom), "-to", fmt.Sprint(f.I+1), "-profile", "mixed")
+			hf, _ := failureOf(po)
+			if hf == nil || hf.I != f.I || hf.Verdict != f.Verdict {
+				trouble(e, "run %d (seed %d) failed with %s in the sweep but neither alone in a fresh process nor when its worker process (runs %d..%d) is re-executed: nondeterministic", f.I, f.Seed, f.Verdict, f.ProcFrom, f.I)
+			}
+			hf.ProcFrom = f.ProcFrom
+			handled[sig0] = "violation"
+			if reported[sig0] {
+				continue
+			}
+			reported[sig0] = true
+			violations++
+			c := hf.Case.clone()
+			c.History = &histM{Base: x.e.seed, From: f.ProcFrom, To: f.I + 1, Note: "this failure reproduces only after the earlier runs of its worker process; the replay command re-executes that range"}
+			p := x.writeReplay(c, hf, fmt.Sprintf("C17-%s-%d.json", hf.Verdict, f.Seed))
+			fmt.Printf("violation (not minimised: reproduces only with its worker process's history, runs %d..%d of batch seed %d):\n%s", f.ProcFrom, f.I, x.e.seed, describe(hf))
+			fmt.Printf("VIOLATION property=C17 replay=%s\n", p)
+			vioSamples = append(vioSamples, map[string]any{"class": hf.Verdict, "seed": f.Seed, "replay": p})
+			continue
 		}
 		if cf.Report == "" {
 			cf.Report = f.Report
